@@ -3,6 +3,7 @@ package main
 import (
 	"math/big"
 	"math/rand"
+	. "zharness/hz"
 
 	g "github.com/zenon-network/go-zenon/chain/genesis/mock"
 	"github.com/zenon-network/go-zenon/chain/nom"
@@ -16,8 +17,6 @@ import (
 	"github.com/zenon-network/go-zenon/wallet"
 	"github.com/zenon-network/go-zenon/zenon/mock"
 )
-
-func init() { runners["plasma"] = runPlasma }
 
 func errClassPlasma(err error) int64 {
 	switch err {
@@ -54,7 +53,7 @@ func plasmaHistory(rng *rand.Rand, out *Out) {
 			continue // stays without fused QSR
 		}
 		amt := new(big.Int).Mul(big.NewInt(int64(10+rng.Intn(70))), big.NewInt(g.Zexp))
-		nd.z.InsertSendBlock(&nom.AccountBlock{
+		nd.Z.InsertSendBlock(&nom.AccountBlock{
 			Address: g.User1.Address, ToAddress: types.PlasmaContract,
 			TokenStandard: types.QsrTokenStandard, Amount: amt,
 			Data: definition.ABIPlasma.PackMethodPanic(definition.FuseMethodName, u.Address),
@@ -87,9 +86,9 @@ func plasmaHistory(rng *rand.Rand, out *Out) {
 		nd.Fill(b)
 
 		// context exactly as the vm will see it
-		ms := nd.ch.GetMomentumStore(b.MomentumAcknowledged)
-		as := nd.ch.GetAccountStore(b.Address, b.Previous())
-		ctx := vm_context.NewAccountContext(ms, as, nd.cs.FixedPillarReader(b.MomentumAcknowledged))
+		ms := nd.Ch.GetMomentumStore(b.MomentumAcknowledged)
+		as := nd.Ch.GetAccountStore(b.Address, b.Previous())
+		ctx := vm_context.NewAccountContext(ms, as, nd.Cs.FixedPillarReader(b.MomentumAcknowledged))
 		committed, _ := ms.GetAccountStore(b.Address).GetChainPlasma()
 		uncommitted, _ := as.GetChainPlasma()
 		fusedAmt, _ := ms.GetStakeBeneficialAmount(b.Address)
@@ -122,7 +121,7 @@ func plasmaHistory(rng *rand.Rand, out *Out) {
 				f = uint64(rng.Int63n(int64(avail) + 1))
 			}
 		default:
-			f = boundaryU64(rng)
+			f = BoundaryU64(rng)
 		}
 		b.FusedPlasma = f
 		var d uint64
@@ -133,7 +132,7 @@ func plasmaHistory(rng *rand.Rand, out *Out) {
 		case 2:
 			d = uint64(1 + rng.Intn(400000))
 		case 3: // claimed difficulty without doing the work
-			d = boundaryU64(rng)
+			d = BoundaryU64(rng)
 			if d == 0 {
 				d = 1
 			}
